@@ -153,6 +153,20 @@ func (propC02) Gen(seed uint64, tier string, idx int) *Plan {
 		p.Ops[0].Abort = &Abort{At: "resp", K: 1 + r.Pick(2000), Kind: pickS(r, []string{"fin", "rst"})}
 	}
 	if r.Chance(200) {
+		// resources handed back by a request that was abandoned mid-response must not be shared by later
+		// requests: a second wave of overlapping requests, with a send window small enough that a response
+		// chunk is still being written while other requests are being read
+		p.Net.Window = pickS(r, []int{2048, 8192, 32768})
+		p.Stack.StreamBuf = pickS(r, []int{8192, 65536})
+		p.Ops = append(p.Ops, ClientOp{ID: 50, At: r.Dur(0, 2*time.Millisecond), Method: "POST", Path: "/olla/proxy/v1/chat/completions",
+			Body: BodySpec{Kind: "json", N: 200, Model: "m1"}, Deadline: 30 * time.Second, Abort: &Abort{At: "resp", K: 1 + r.Pick(3000), Kind: pickS(r, []string{"fin", "rst"})}})
+		for j := 0; j < 2+r.Pick(3); j++ {
+			p.Ops = append(p.Ops, ClientOp{ID: 60 + j, At: 3*time.Second + r.Dur(0, 2*time.Millisecond), Method: "POST", Path: "/olla/proxy/v1/chat/completions",
+				Body: BodySpec{Kind: "json", N: 200, Model: "m1"}, Deadline: 30 * time.Second})
+		}
+		p.Sub += "/second-wave"
+	}
+	if r.Chance(200) {
 		// a history of answers that never came (backend closes without a status line: not a connection
 		// error, the endpoint stays in rotation) leaves every endpoint k failures away from whatever
 		// failure bookkeeping the engine keeps; the request under test then fails mid-response on top of it
